@@ -11,6 +11,8 @@ import Peppi.Lemmas.C01B
 import Peppi.Lemmas.C01C
 import Peppi.Lemmas.C01G
 import Peppi.PremisesViews
+import Peppi.SlppBytes
+import Peppi.Tar
 set_option linter.unusedVariables false
 namespace Peppi.Props.C02
 
@@ -124,5 +126,19 @@ theorem views_Velocities : structOK false true Velocities.views = true :=
 open Extracted in
 theorem views_Velocity : structOK false true Velocity.views = true :=
   _root_.Peppi.views_Velocity 
+
+/- from `Peppi.SlppBytes` -/
+theorem slppRead_written {χ : Type} (C : Codec χ) (T : TextOracle) (g : PGame χ) (startBytes : Bytes) (endBytes : Option Bytes)
+    (hstart : gameStart T startBytes = .ok g.start)
+    (hend : endBytes.map gameEnd = g.fend.map Res.ok)
+    (hgecko : ∀ c, g.gecko = some c → c.2 < 2 ^ 32)
+    (hs : SizesOK C g startBytes endBytes) (skip : Bool) :
+    slppRead C T skip (slppWrite C g startBytes endBytes) = .ok (if skip then { g with frames := none } else g) :=
+  _root_.Peppi.slppRead_written C T g startBytes endBytes hstart hend hgecko hs skip
+
+/- from `Peppi.Tar` -/
+theorem tarRead_archive (es : List (Bytes × Bytes)) (hes : ∀ e ∈ es, EntryOK e) (fuel : Nat) (hf : es.length < fuel) :
+    tarRead fuel (tarArchive es) = .ok (es, true) :=
+  _root_.Peppi.tarRead_archive es hes fuel hf
 
 end Peppi.Props.C02
